@@ -63,6 +63,11 @@ TEXT = {
         text="Single-thread: seeded histories of enter / nested enter / exit / exit-by-exception / getter / as_dict / kernel-change events; a value returned inside a block must equal what the same getter returns outside any block on a view of the kernel whose source files are pinned at the versions first read in the block (or current), shared sources are opened at most once per block, the next call after exit re-reads and is current, as_dict has the exact keys / ad_value policy / early ValueError-TypeError. Threads: 2-3 real threads (one using oneshot()/as_dict(), others plain getters or their own blocks on the same object) run under a scheduler that hands a baton over at plan-chosen source lines, seam calls and lock operations (<= 4 quick / <= 8 thorough voluntary pre-emptions, biased to memoize_when_activated / cache_activate / cache_deactivate / oneshot lines); no call may raise, no deadlock, every value must be the answer for some kernel version inside the call's window. Sampled.",
         note="Trusted base: the baton scheduler (sim/sched.py), sys.settrace line events, SimLock, SimKernel. Pre-emption is line-granular; free-threaded builds are not modelled. The differential oracle calls psutil itself on a fresh handle outside oneshot (the statement's own reference).",
         ref="DESIGN.md section 9, C16"),
+    "C19": dict(
+        technique="deterministic simulation: generated sysfs/procfs hardware trees in a simulated VFS with enumerated per-file faults (absent / EACCES / EIO / ENODEV / ENXIO / non-numeric), reference computed from the tree, pinned hash seeds",
+        text="Per seeded hardware tree every subject (sensors_temperatures in C and F, sensors_fans, sensors_battery, cpu_freq, cpu_count, cpu_stats, boot_time) runs fault-free and is compared exactly with a reference computed from the tree by the rules of the statement; then each sysfs file the call opened is made absent, EACCES on open, or EIO/ENODEV/ENXIO on read (thresholds also non-numeric), one at a time: a faulted reading file must only drop that sensor, a faulted optional file must only change what the statement says. Exhaustive in (file touched, fault kind) per tree; trees are sampled; each batch runs under one of four pinned PYTHONHASHSEED values because psutil iterates sets of names.",
+        note="Trusted base: the reference functions in sim/engines/sysfs.py, SimKernel VFS + glob. Faults on files the statement promises no tolerance for (chip name, scaling_max/min_freq, zone type, /proc files) are executed but not judged.",
+        ref="DESIGN.md section 9, C19"),
     "C03": dict(
         technique="deterministic simulation: seeded worlds + enumerated fault injection at every OS access index (fork-per-run, trace digest, ddmin-shrunk replay files)",
         text="For every seeded world, every Process query method is run once fault-free to number its OS accesses, then once per (pid-related access k) x {process vanishes, turns zombie, EACCES, EPERM} plus sampled two-fault sequences; each outcome must be a well-shaped value or NoSuchProcess/ZombieProcess/AccessDenied with the right cause and pid, and after a vanish every getter must raise NoSuchProcess. Exhaustive in (method, access, fault kind) per world, sampled over worlds: evidence, not proof.",
